@@ -102,7 +102,7 @@ func genBatch(r *RNG, withBad bool, maxLines int) *Scenario {
 		func(w *World) string { return fmt.Sprintf("ETpot=%d", r.Range(1, 5)) },
 		func(w *World) string { return fmt.Sprintf("LeachingDepth=%d", r.Range(1, w.Soil.N())) },
 	}
-	badKinds := []string{"unknown-soil", "unknown-field", "bad-texture", "bad-fractions", "weather-gap", "till-in-crop", "startyear", "weather-late", "args-no-project", "args-no-plot", "args-bad-overwrite", "weather-short", "weather-folder"}
+	badKinds := []string{"unknown-soil", "unknown-field", "bad-texture", "bad-fractions", "weather-gap", "till-in-crop", "startyear", "weather-late", "args-no-project", "args-no-plot", "args-bad-overwrite", "weather-short", "weather-folder", "weather-unopenable"}
 	applyBad := func(bl *BatchLine, w *World) {
 		if bl.Bad == "till-in-crop" && len(w.Rot) < 2 {
 			bl.Bad = "unknown-soil" // no crop in this world: the tillage class cannot be built
@@ -114,6 +114,9 @@ func genBatch(r *RNG, withBad bool, maxLines int) *Scenario {
 			bl.Bad = "weather-gap" // the correction table of the selected folder is a pooled file: its absence ends the process
 		}
 		switch bl.Bad {
+		case "weather-unopenable":
+			// the station's weather file exists but cannot be opened
+			bl.Extra = append(bl.Extra, "fcode="+w.FCode+"loop")
 		case "weather-folder":
 			// the line selects a weather folder that does not hold the station's file (the project's own folder does)
 			bl.Extra = append(bl.Extra, "WeatherFolder=wxnone")
